@@ -1472,7 +1472,7 @@ def gen_pth_prog(rng):
     NT = nch + 1
     th = {t: [] for t in range(1, NT + 1)}
     barn = [0, 0, 0, 0]; keydt = [rng.choice((0, 1)) for _ in range(4)]; mkind = [rng.choice((0, 1)) for _ in range(4)]
-    kind = rng.choice(('counter', 'counter', 'handoff', 'barrier', 'keys', 'once', 'detach', 'static')) if rng.random() > 0.04 else 'racy'
+    kind = rng.choice(('counter', 'counter', 'handoff', 'barrier', 'keys', 'once', 'detach', 'static', 'staticsync')) if rng.random() > 0.04 else 'racy'
     ends = lambda t: rng.choice(([], [('RET', 2000 + t, 0, 0)], [('EXIT', 3000 + t, 0, 0)]))
 
     def locked_add(m, v, d, style):
@@ -1481,6 +1481,18 @@ def gen_pth_prog(rng):
         return [(style, m, 0, 0), ('ADD', v, d, 0), ('UNLOCK', m, 0, 0)]
     main = th[1]
     attr = lambda: rng.choice((0, 0, 1, 3, 4))
+    if kind == 'staticsync':
+        # first use of statically initialised mutexes by all threads at once: a barrier lines the threads up in front of
+        # each mutex (these programs are run repeatedly: the window of the one-time conversion is a few instructions)
+        nch = 3; NT = 4; th = {t: [] for t in range(1, NT + 1)}
+        mkind = [1, 1, 1, 1]; barn[0] = NT
+        body = []
+        for m_ in range(rng.randint(2, 4)):
+            body += [('BARRIER', 0, 0, 0), ('LOCK', m_, 0, 0), ('ADD', m_, 1 + m_, 0), ('UNLOCK', m_, 0, 0)]
+        for t in range(2, NT + 1):
+            th[1].append(('CREATE', t, 0, 0)); th[t] = list(body)
+        th[1] += body + [('JOIN', t, 0, 0) for t in range(2, NT + 1)] + [('READ', 0, 0, 0), ('READ', 1, 0, 0)]
+        return {'threads': [th[t] for t in range(1, NT + 1)], 'barn': barn, 'keydt': [0, 0, 0, 0], 'mkind': mkind, 'kind': kind}
     if kind == 'racy':
         # NOT determinate on purpose (a read that races with the additions): TLC must find several results and the
         # program must be left out of the comparison
@@ -1653,9 +1665,11 @@ def check_C16(ctx):
     for i in sorted(expected):
         pp = os.path.join(pdir, 'p%d.prog' % i); write_pth_prog(pp, progs[i - 1])
         jobs.append((i, pp, 'system', b_sys, {}))
+        reps = (10 if ctx.quick else 40) if progs[i - 1]['kind'] == 'staticsync' else 1
         for nw in nws:
-            jobs.append((i, pp, 'ld nw=%d' % nw, b_ld, {'MYTH_NUM_WORKERS': str(nw)}))
-            jobs.append((i, pp, 'dl nw=%d' % nw, b_sys, {'MYTH_NUM_WORKERS': str(nw), 'LD_PRELOAD': os.path.join(wrap, 'libmyth-dl.so')}))
+            for _rep in range(reps if nw > 1 else 1):
+                jobs.append((i, pp, 'ld nw=%d' % nw, b_ld, {'MYTH_NUM_WORKERS': str(nw)}))
+                jobs.append((i, pp, 'dl nw=%d' % nw, b_sys, {'MYTH_NUM_WORKERS': str(nw), 'LD_PRELOAD': os.path.join(wrap, 'libmyth-dl.so')}))
         jobs.append((i, pp, 'ld MYTH_WRAP_PTHREAD=0', b_ld, {'MYTH_WRAP_PTHREAD': '0'}))
 
     def one(j):
